@@ -1,0 +1,18 @@
+//go:build verif
+
+package lexer
+
+// Verification hooks, enabled with the build tag "verif". They change no behaviour: every hook is a
+// no-op unless a test harness installs a function.
+const verifEnabled = true
+
+// VerifGate, when set, is called at the linearization points of the shared back-reference cache:
+// just before the cache is read ("backref.load") and just before a compiled pattern is stored
+// ("backref.store"). A blocking function turns it into a scheduler gate.
+var VerifGate func(point, key string)
+
+func verifGate(point, key string) {
+	if g := VerifGate; g != nil {
+		g(point, key)
+	}
+}
